@@ -137,6 +137,8 @@ package nodeutil
 //@   assigns nothing
 //@ interface meta.Leafable.Ident() string
 //@   assigns nothing
+//@ interface meta.Leafable.Type() *meta.Type
+//@   assigns nothing
 //@ interface meta.HasDataDefinitions.Ident() string
 //@   assigns nothing
 //@ interface val.Value.String() string
@@ -171,3 +173,49 @@ package nodeutil
 //@   requires forall k int :: 0 <= k && k < len(keyFields) ==> solid(keyFields[k])
 //@   loop 1 invariant -1 <= rangeindex && rangeindex < len(keyFields)
 //@   loop 1 decreases len(keyFields) - rangeindex
+
+// ---- C13: the XML reader never crashes on the shape of the document ------------------------------------------------
+// an XmlNode tree as the decoder builds it (no nil child nodes); whatever elements are or are not there, every
+// index stays in range, every loop terminates, nothing is written
+//@ macro wfXml(x *XmlNode) bool = x != nil && (forall k int :: 0 <= k && k < len(x.Nodes) ==> x.Nodes[k] != nil)
+//@ macro wfXml2(x *XmlNode) bool = wfXml(x) && (forall j int :: 0 <= j && j < len(x.Nodes) ==> wfXml(x.Nodes[j]))
+//@ func (x *XmlNode) Find(start int, m meta.Definition) int
+//@   mode int
+//@   property C13
+//@   requires wfXml(x) && start >= 0 && solid(m)
+//@   assigns nothing
+//@   loop 1 invariant start <= i
+//@   loop 1 decreases len(x.Nodes) - i
+//@   ensures result == -1 || (start <= result && result < len(x.Nodes))
+//@ func (x *XmlNode) field(m meta.Leafable) (string, bool)
+//@   mode int
+//@   property C13
+//@   requires wfXml(x) && solid(m)
+//@   assigns nothing
+//@ func (x *XmlNode) Field(r node.FieldRequest, hnd *node.ValueHandle) error
+//@   mode int
+//@   property C13
+//@   requires wfXml(x) && solid(r.Meta) && hnd != nil
+//@   loop 1 invariant -1 <= ndx && ndx < len(x.Nodes) && wfXml(x)
+//@   loop 1 decreases ndx < 0 ? 0 : len(x.Nodes) - ndx + 1
+//@ func (x *XmlNode) Child(r node.ChildRequest) (node.Node, error)
+//@   mode int
+//@   property C13
+//@   requires wfXml(x) && solid(r.Meta)
+//@   loop 1 invariant -1 <= ndx && ndx < len(x.Nodes) && wfXml(x) && (cap(found) == 0 || fresh(found))
+//@   loop 1 invariant x.Nodes === old(x.Nodes)
+//@   loop 1 decreases ndx < 0 ? 0 : len(x.Nodes) - ndx + 1
+// (rows count from a non-negative start row; a key never has more values than the list has key leafs: both are
+// established by the request parser, node.NewValuesByString)
+//@ func (x *XmlNode) Next(r node.ListRequest) (node.Node, []val.Value, error)
+//@   mode int
+//@   property C13
+//@   requires wfXml2(x) && r.Meta != nil && r.Row >= 0 && len(r.Key) <= len(keyMetaOf(r.Meta))
+//@   requires forall k int :: 0 <= k && k < len(r.Key) ==> solid(r.Key[k])
+//@   loop 1 invariant -1 <= rangeindex && rangeindex < len(x.Nodes) && wfXml2(x)
+//@   loop 1 decreases len(x.Nodes) - rangeindex
+//@   loop 2 invariant -1 <= rangeindex$2 && rangeindex$2 < len(r.Key)
+//@   loop 2 decreases len(r.Key) - rangeindex$2
+//@   loop 3 invariant -1 <= rangeindex$3 && wfXml2(x) && (cap(key) == 0 || fresh(key))
+//@   loop 3 invariant forall k int :: 0 <= k && k < len(keyMetaOf(r.Meta)) ==> solid(keyMetaOf(r.Meta)[k])
+//@   loop 3 decreases len(keyMetaOf(r.Meta)) - rangeindex$3
